@@ -49,7 +49,7 @@ func TestCheck(t *testing.T) {
 		}
 	}()
 	ctx := context.Background()
-	n := int64(cfg.Pick(48, 64))
+	n := int64(cfg.Pick(48, 192))
 	rep.Require("concurrent_calls", 500)
 	rep.Cases(n, func(idx int64, rng *mon.Rand) {
 		switch idx % 4 {
